@@ -255,13 +255,29 @@ register('C18', title='windowing utilities',
          rule='generated: cycle tables of both centrings and methods (with and without burst columns) x windows {random, exactly on cycle '
               'boundaries, start None, stop None, both None, window containing no cycle} x reset_indices; limit_signal on the matching time '
               'axis; split / drop on every table; flatten_dfs on 1-D and 2-D lists of epoch tables with list / array labels and custom column '
-              'name. Monitors (snapshot + post-condition): ordered row subset, inside cycles kept / outside cycles dropped (a boundary within '
-              '1e-6 samples of a limit: either), feature values unchanged, ALL sample_* columns shifted by one common offset (0 without reset), '
+              'name. Monitors (snapshot + post-condition): ordered row subset, inside cycles kept / outside cycles dropped (closed interval, decided in rational arithmetic; a boundary that '
+              'coincides with a limit only up to rounding, |d| <= 1e-6 samples: either), feature values unchanged, ALL sample_* columns shifted by one common offset (0 without reset), '
               'no exception for None limits or trough-centred tables; limit_signal == samples with start <= t < stop; column partition and '
               'value equality; row provenance by a marker column: each row carries the label of its table. Non-trivial (limit) = window that '
               'keeps >= 1 cycle and cuts >= 1.',
-         floors={'quick': {'nontrivial': 100, 'classes': {'limit_df_window_cuts_and_keeps': 50, 'limit_df_boundary_coincidence': 30,
+         floors={'quick': {'nontrivial': 100, 'classes': {'limit_df_window_cuts_and_keeps': 50, 'limit_df_boundary_coincidence_exact': 20,
                                                           'limit_df_window_without_cycle': 20, 'flatten:1d': 10, 'flatten:2d': 10}},
                  'thorough': {'nontrivial': 5000}},
          assumptions=['the common offset\'s value is recorded, only its uniformity is asserted (that is what the statement says)'],
+         quick_shards=8, thorough_shards=16)
+
+register('C20', title='plots draw the analysis',
+         deciding=['figure_inspected'],
+         rule='generated: cycle tables of both centrings and both methods at fs in {100,128,250,500,1000,1024,2000,44100} (float-unfriendly '
+              'lengths included) x x-limits {None, random on the sample grid, starting exactly on a side extremum, ending exactly on / one '
+              'past a side extremum, window without a complete cycle} (limits k/fs only for k with k/fs == k*(1/fs)) x plot_only_result x '
+              'interp x the cyclepoint-kind switches; plot_cyclepoints_df, plot_cyclepoints_array (all first_extrema values), '
+              'plot_burst_detect_summary and Bycycle.plot. Oracle (artist inspector under Agg): every marker at a sample time, on a genuine '
+              'cyclepoint of its series (drawing order), y == the plotted trace at that sample, every cyclepoint strictly inside the plotted '
+              'view drawn; highlighted samples (unmasked part of the burst line) subset of burst cycles and superset of every burst cycle '
+              'inside the view; panel points == (centre, value) of cycles [steps: (last side, next side, value)], every cycle strictly inside '
+              'the view shown, threshold line at the given threshold; an exception is a violation. Non-trivial (summary) = view cuts >= 1 '
+              'cycle and contains >= 1 burst and >= 1 non-burst cycle.',
+         floors={'quick': {'nontrivial': 30, 'classes': {'markers_checked': 2000, 'panels_checked': 100}}, 'thorough': {'nontrivial': 1000}},
+         assumptions=['the view is what is actually plotted: the samples of the trace line', 'series identity by drawing order, not colour'],
          quick_shards=8, thorough_shards=16)
